@@ -9,6 +9,7 @@ import (
 	"go/token"
 	"go/types"
 	"math/big"
+	"os"
 	"regexp"
 	"sort"
 	"strconv"
@@ -638,7 +639,7 @@ func (e *Exec) trQuant(x *SQuant, env *SpecEnv) TV {
 		// a body that expands (through a spec function) to a universal formula is merged into this binder list:
 		// the outer variables then occur in the triggers of the inner atoms
 		bt := body.T
-		for strings.HasPrefix(bt.S, "(forall ((") {
+		for os.Getenv("RVC_NOFLAT") == "" && strings.HasPrefix(bt.S, "(forall ((") {
 			parts := splitTop(bt.S[1 : len(bt.S)-1])
 			if len(parts) != 3 || strings.HasPrefix(parts[2], "(! ") {
 				break
@@ -1026,7 +1027,6 @@ func rewriteSelfCalls(txt, name, hargs string) string {
 	}
 }
 
-
 // parameters of an enclosing predicate instance (nested pred calls inside a pred body)
 var outerParamRe = regexp.MustCompile(`\b[ib]!p[0-9]+\b|\b[vuwt]!pred\b|@V@`)
 var innerPredRe = regexp.MustCompile(`\(P_[A-Za-z0-9_]+![0-9a-f]+ v!pred\)`)
@@ -1034,7 +1034,9 @@ var qvarRe = regexp.MustCompile(`![q]([0-9]+)`)
 var qvarFullRe = regexp.MustCompile(`[A-Za-z_][A-Za-z0-9_]*![q][0-9]+`)
 
 // predCall: a set-like predicate P(args, v) is given a name per distinct (args, heap) instance:
-//   (declare-fun P!h (Int) Bool)   (forall v. P!h(v) = body)  with trigger P!h(v)
+//
+//	(declare-fun P!h (Int) Bool)   (forall v. P!h(v) = body)  with trigger P!h(v)
+//
 // so that quantified views  forall v :: P(a,v) <==> ...  have the natural triggers P!h(v).
 func (e *Exec) predCall(sf *SpecFunc, sfPkg *types.Package, args0 []TV, env *SpecEnv) (TV, bool) {
 	args := append([]TV(nil), args0...) // the caller falls back to inline expansion with its own arguments
@@ -1161,7 +1163,7 @@ func (e *Exec) predCall(sf *SpecFunc, sfPkg *types.Package, args0 []TV, env *Spe
 				}
 			}
 			e.globalAxiom(fmt.Sprintf("(assert (forall (%s) (! (= %s %s) %s)))", strings.Join(binders, " "), app, canon, pats))
-			if len(idxActuals) > 0 {
+			if len(idxActuals) > 0 && os.Getenv("RVC_NOBRIDGE") == "" {
 				// term-creation bridges between the instances of one predicate over S[e] in different heap versions:
 				// a ground atom of one version creates the atom of the other, so both definitions unfold at that point
 				// (the bridge formula itself is an implication into a fresh predicate: conservative)
@@ -1265,7 +1267,6 @@ func (e *Exec) viewGoalOf(c Clause, env *SpecEnv, st *State) string {
 	}
 	return ""
 }
-
 
 // specReadsThroughPointers: a recursive spec function with pointer / interface parameters may read
 // element memory through them, so its heap argument cannot be restricted to its slice arguments.
